@@ -108,6 +108,7 @@ Section AsmFaithful.
     unfold asm_int. rewrite Hd.
     destruct s as [| k0 | | | | | | s1 | | |]; simpl in Hd; try discriminate.
     - inversion Hd; subst k0.
+      assert ((if q_ptr_uint q then ik_unsigned k else ik_unsigned k) = ik_unsigned k) as -> by (destruct (q_ptr_uint q); reflexivity).
       destruct (ik_unsigned k) eqn:Hu.
       + rewrite (unsigned_nonneg k z Hu Hin). rewrite Hin. rewrite andb_false_r.
         rewrite (ik_narrow_in k z Hin). reflexivity.
@@ -118,6 +119,7 @@ Section AsmFaithful.
         rewrite (ik_narrow_in k z Hin). reflexivity.
     - subst s1. simpl in Hl. rewrite andb_true_r in Hl.
       assert (Hu : ik_unsigned k = false) by (apply negb_true_iff; exact Hl).
+      assert ((if q_ptr_uint q then ik_unsigned k else false) = false) as -> by (rewrite Hu; destruct (q_ptr_uint q); reflexivity).
       rewrite Hu. rewrite Hin. rewrite andb_false_r.
       pose proof (signed_below_two63 k z Hu Hin) as Hlt.
       assert ((two63z <=? z)%Z = false) as ->.
